@@ -502,6 +502,7 @@ class ModelFitting(ProblemSingleObjective):
 
                 start = a
                 stop = a + b
-                new_processor.set(key=var.key, value=parameter[start:stop])
+                # Copy the slice, a view would be shared by all processors
+                new_processor.set(key=var.key, value=parameter[start:stop].copy())
             a += b
         return new_processor
